@@ -82,6 +82,11 @@ func stdNamedType(n ast.Node, tt *types.Named) (string, bool) {
 	case "crypto.Hash":
 		ensureAbbrev(n, "crypto.Hash", tt.Underlying())
 		return "crypto.Hash", true
+	case "hash.Hash":
+		// the prelude's HashObj: the algorithm and the bytes written so far (fnarg.go); never inside a struct field
+		if fieldDepth == 0 {
+			return "HashObj", true
+		}
 	}
 	if isReaderAtRef(tt) {
 		return "ReaderAtRef", true
